@@ -146,9 +146,14 @@ def check_bracket_tol(reg, src, prop=PID):
     tol, a, b = z3.Real("tol"), z3.Real("a"), z3.Real("b")
     st.assume(tol >= 0)
     ctx = Ctx(fi, None, None, tag="_bracket_tol")
-    paths = ex.call_function(fi, [tol, a, b], {}, st, ctx)
     absz = lambda x: z3.If(x >= 0, x, -x)
-    spacing = ex.eps * z3.If(absz(a) >= absz(b), absz(a), absz(b))
+    # the epsilon is that of the *bracket's* type (a tolerance handed in as a wider or narrower float type says nothing about the spacing of
+    # the bracket's numbers): dtype provenance of the three arguments is tracked
+    ex.dtype_tags[id(a)] = ("bracket", a)
+    ex.dtype_tags[id(b)] = ("bracket", b)
+    ex.dtype_tags[id(tol)] = ("tol", tol)
+    paths = ex.call_function(fi, [tol, a, b], {}, st, ctx)
+    spacing = z3.Real("eps_bracket") * z3.If(absz(a) >= absz(b), absz(a), absz(b))
     for k, (s, v) in enumerate(paths):
         if isinstance(v, Raised) or not z3.is_expr(v):
             reg.undecided("%s/_bracket_tol/value#%d" % (prop, k), "unsupported", "_bracket_tol", "result %r" % (v,))
